@@ -19,6 +19,7 @@ def run(ctx):
     vlib.run_driver(ctx, binp, "record", d + "/t.ndjson", n=100 if q else 800, extra_env={"VERIF_FOCUS": "c09"})
     ev = vlib.read_ndjson(d + "/t.ndjson")
     vlib.note_events(ctx, [e for e in ev if e["op"] != "bip39.SetWordList"])
+    bc.caller_histories(ctx, binp, ev, ["bip39.MnemonicToSeed"], "real MnemonicToSeed differs from the Bip39 specification", extra_env={"VERIF_FOCUS": "c09"})
     bc.judge(ctx, binp, ev, "real MnemonicToSeed/ParseMnemonic differs from the Bip39 specification", extra_env={"VERIF_FOCUS": "c09"})
     return vlib.finish(ctx, LEVEL, RULE, bc.ASSUME, matchers=bc.MATCHERS,
                        technique="TLA+ spec Bip39 (seed = PBKDF2 fact over spec-prescribed password/salt; Fields over NFKD fact); stateful trace validation")
